@@ -338,12 +338,14 @@ ExitIdleExpire(t) ==
 \* sealed under the tunnel key or dropped (ExitDrop).  Deviations: sealed under the wiped all-zero key (stream kinds,
 \* the key object is zeroed), or - datagram kinds, the key reference is cleared and "no key" means "do not encrypt" -
 \* sent in clear.
+ExitBody(t, c) ==
+  IF tun[t].xst = "closed" /\ "DevPlainAfterKeyCleared" \in Dev /\ tun[t].kind \in DatagramKinds THEN Plain(c)
+  ELSE IF tun[t].xst = "closed" /\ "DevSealAfterKeyWipe" \in Dev THEN Sealed(WipedKey, c)
+  ELSE Sealed(tun[t].xkey, c)
+
 ExitSeal(t, c) ==
   /\ tun[t].pendX = 1 /\ tun[t].xst \in {"open", "closed"}
-  /\ LET body == IF tun[t].xst = "closed" /\ "DevPlainAfterKeyCleared" \in Dev /\ tun[t].kind \in DatagramKinds THEN Plain(c)
-                  ELSE IF tun[t].xst = "closed" /\ "DevSealAfterKeyWipe" \in Dev THEN Sealed(WipedKey, c)
-                  ELSE Sealed(tun[t].xkey, c) IN
-       links' = [links EXCEPT ![LastHop] = @ \cup {Frame("DATA", "bwd", tun[t].xsid.id, t, NoVal, NoVal, body)}]
+  /\ links' = [links EXCEPT ![LastHop] = @ \cup {Frame("DATA", "bwd", tun[t].xsid.id, t, NoVal, NoVal, ExitBody(t, c))}]
   /\ tun' = [tun EXCEPT ![t] = [@ EXCEPT !.pendX = 0, !.sentX = @ + 1]]
   /\ UNCHANGED <<relay, usedSid, knows, derivs>>
 
